@@ -5,11 +5,15 @@ SPEC['C01'] = ('Top-down require returns what a from-scratch build would return'
   ('C01_reuse_needs_all_consistent_partial', 'Local', 'check_deps_inconsistent',
    'partial: a recorded resource dependency whose checker reports Inconsistent ends validation with "inconsistent" (no reuse)'),
 ], 'PARTIAL. The full statement (incremental = from-scratch for every program of the class and every history) is decided by the correspondence run and the fresh-instance oracle; the staged proof (Validity, valid_replay) is not finished. See DESIGN.md section 6 C01.')
-SPEC['C02'] = ('Top-down build does no unnecessary work', ['Local', 'Local2', 'History', 'ExecInv', 'ExecSession'], [
+SPEC['C02'] = ('Top-down build does no unnecessary work', ['Local', 'Local2', 'History', 'ExecInv', 'ExecSession', 'Justify'], [
   ('C02_at_most_once_per_session', 'ExecSession', 'session_td_at_most_once',
    'for ALL programs, checkers, fuel, stores satisfying the store invariants J (every store reachable by top-down histories does: C19_no_internal_error_all_histories) and ALL sessions of requires: the session event stream contains no task execution twice (also when the session ends in an abort)'),
   ('C02_executed_only_if_not_yet_consistent', 'ExecSession', 'session_require_execs',
    'every task executed by a require was not yet consistent (checked or executed) in this session when the require started, is executed once, and is consistent when the require returns'),
+  ('C02_reuse_not_executed', 'Justify', 'mc_reuse',
+   'justification, part 1: a task that has an output and whose recorded dependencies all validate is reused -- its cached output is returned and the task itself is not executed (whatever nested tasks were executed during validation), below any execution stack'),
+  ('C02_inconsistent_only_after_failed_check', 'Justify', 'check_deps_false',
+   'justification, part 2: validation answers inconsistent only directly after the own checker of one of the recorded dependencies reported so (the failing end event is the last event). With the shape of make_task_consistent: a task is executed only if it has no output or a recorded dependency failed its own check'),
   ('C02_memo', 'Local', 'make_consistent_memo', 'a task already made consistent in this session is returned from the cache: no event, no state change, hence no second execution'),
   ('C02_marks_consistent', 'Local2', 'make_consistent_returns_cached', 'every completed make_task_consistent marks the task consistent (so C02_memo applies to every later require in the session)'),
   ('C02_consistent_dep_continues', 'Local', 'check_deps_consistent', 'a dependency reported Consistent by its own checker does not stop validation'),
